@@ -204,11 +204,43 @@ pub fn task_sets(tier: Tier) -> Vec<TaskSet> {
     }
     out.extend(profile_sets());
     out.extend(medium_sets(tier));
+    out.extend(negative_anchor_sets(tier));
+    out
+}
+
+/// A task fixed at time -1 that uses the whole capacity (a profile at a negative time point from
+/// the start) and three flexible tasks around time 0: profiles at negative and non-negative time
+/// points exist side by side, and the flexible tasks are pushed across time 0.
+pub fn negative_anchor_sets(tier: Tier) -> Vec<TaskSet> {
+    let mut out = vec![];
+    let du = [(2, 2), (2, 1), (1, 1)];
+    let per = 3 * 2 * 3u64;
+    let total = per.pow(3);
+    let mut i = 0;
+    while i < total {
+        let mut x = i;
+        let mut vars = vec![VarDecl::from_values(&[-1])];
+        let mut durations = vec![1];
+        let mut usages = vec![2];
+        for _ in 0..3 {
+            let lb = (x % 3) as i32 - 1;
+            x /= 3;
+            let width = 2 + (x % 2) as i32;
+            x /= 2;
+            let (d, u) = du[(x % 3) as usize];
+            x /= 3;
+            vars.push(VarDecl::interval(lb, lb + width));
+            durations.push(d);
+            usages.push(u);
+        }
+        out.push(TaskSet { vars, starts: (0..4).map(View::id).collect(), durations, usages, cap: 2, side: None, more: vec![] });
+        i += if tier.quick() { 5 } else { 1 };
+    }
     out
 }
 
 /// Medium-sized task sets (3-4 tasks, start domains of 3-5 values, durations 0-4, usages 0-3,
-/// capacities 2-4): every `stride`-th element of the full product space in mixed-radix order.
+/// capacities 2-4; every other one shifted by -3): every `stride`-th element of the full product space in mixed-radix order.
 /// Their complete enumeration under the default brancher drives the incremental propagators
 /// through long sequences of conflicts, backtracks and re-derived bounds.
 pub fn medium_sets(tier: Tier) -> Vec<TaskSet> {
@@ -219,6 +251,8 @@ pub fn medium_sets(tier: Tier) -> Vec<TaskSet> {
         let mut i = stride / 2;
         while i < total {
             let mut x = i;
+            // every other set is moved to start times around 0 (lower bounds -3..1)
+            let shift = if (i / stride) % 2 == 1 { -3 } else { 0 };
             let cap = 2 + (x % 3) as i32;
             x /= 3;
             let mut vars = vec![];
@@ -233,7 +267,7 @@ pub fn medium_sets(tier: Tier) -> Vec<TaskSet> {
                 x /= 5;
                 usages.push((x % 4) as i32);
                 x /= 4;
-                vars.push(VarDecl::interval(lb, lb + width));
+                vars.push(VarDecl::interval(lb + shift, lb + shift + width));
             }
             out.push(TaskSet {
                 vars,
